@@ -1,14 +1,15 @@
 #!/bin/bash
-# Builds the framework from files on disk only (offline): Coq development (full .vo build) + Rust harness.
+# Builds the framework from files on disk only (offline): Rust harness, regenerated tables, Coq development (full .vo build).
 set -e
 cd "$(dirname "$0")"
 export CARGO_NET_OFFLINE=true
+cd harness
+cp /repo/Cargo.lock Cargo.lock
+cp /repo/rust-toolchain.toml rust-toolchain.toml
+CARGO_TARGET_DIR=/verif/.build/target cargo build --offline 2>&1 | tail -3
+cd ..
 python3 tools/gen_tables.py
 cd coq
 coq_makefile -f _CoqProject -o Makefile $(find theories -name '*.v' | sort) > /dev/null
 timeout 3000 make -j16
-cd ../harness
-cp /repo/Cargo.lock Cargo.lock
-cp /repo/rust-toolchain.toml rust-toolchain.toml
-CARGO_TARGET_DIR=/verif/.build/target cargo build --offline 2>&1 | tail -3
 echo setup done
